@@ -154,10 +154,14 @@ macro_rules! height_harness {
         }
     };
 }
-height_harness!(c17_dup_1_8, dup_case, [1, 2, 3, 4, 5, 6, 7, 8]);
-height_harness!(c17_dup_9_16, dup_case, [9, 10, 11, 12, 13, 14, 15, 16]);
-height_harness!(c17_swap_1_8, swap_case, [1, 2, 3, 4, 5, 6, 7, 8]);
-height_harness!(c17_swap_9_16, swap_case, [9, 10, 11, 12, 13, 14, 15, 16]);
+height_harness!(c17_dup_1_4, dup_case, [1, 2, 3, 4]);
+height_harness!(c17_dup_5_8, dup_case, [5, 6, 7, 8]);
+height_harness!(c17_dup_9_12, dup_case, [9, 10, 11, 12]);
+height_harness!(c17_dup_13_16, dup_case, [13, 14, 15, 16]);
+height_harness!(c17_swap_1_4, swap_case, [1, 2, 3, 4]);
+height_harness!(c17_swap_5_8, swap_case, [5, 6, 7, 8]);
+height_harness!(c17_swap_9_12, swap_case, [9, 10, 11, 12]);
+height_harness!(c17_swap_13_16, swap_case, [13, 14, 15, 16]);
 
 /// POP: removes exactly the top item; underflow error on an empty stack (depths 0..=3).
 #[kani::proof]
